@@ -2,6 +2,7 @@ mod alloc;
 mod auth;
 mod checks;
 mod common;
+mod glue;
 mod journal;
 mod sched;
 mod sim;
@@ -37,6 +38,7 @@ fn main() {
             }
         }
         Some("replay") => checks::replay_file(&args[2]),
+        Some("glue") => glue::run(),
         Some("alloc-dev") => alloc::dev(&args[2..]),
         Some("alloc-worker") => alloc::worker(&args[2..]),
         Some("sim") => cmd_sim(&args[2..]),
